@@ -1,9 +1,24 @@
-(** Executable comparison used by the correspondence check of C19. *)
+(** Executable comparison used by the correspondence check of C19.
+
+    Two kinds of cases, both evaluated on [open_upgrade]:
+    - [case_ok]: migration.Upgrade(m1, ..., mk) with the harness' instrumented
+      managers inside the harness' own walletdb.Update ([harness_code]: the
+      facts about manager.go as regenerated, the call site is the harness');
+      outcome, committed version and data of every service and the invoked
+      migrations of every service are compared exactly;
+    - [real_ok]: the REAL wtxmgr / waddrmgr migration managers, either through
+      the repository's own call site (wallet.Open: [repo_code], all five
+      regenerated facts) or through migration.Upgrade inside the harness'
+      Update.  The real migrations are model terms [MOk n] / [MFail n] (n the
+      version number; [MFail] where the harness injected a write failure).
+      Compared: the class of the result, and per service the stored version
+      afterwards, whether its namespace is byte-for-byte what it was, and the
+      migrations that ran. *)
 From Verif Require Import Base.Prelude Migrate.Migrate.
 
 Definition outcome_eqb (a b : outcome) : bool :=
   match a, b with
-  | Ok, Ok | ErrReversion, ErrReversion => true
+  | Ok, Ok | ErrReversion, ErrReversion | ErrSetVersion, ErrSetVersion => true
   | ErrMigration n, ErrMigration m => N.eqb n m
   | _, _ => false
   end.
@@ -14,13 +29,43 @@ Definition listN_eqb (a b : list N) : bool :=
 Definition db_eqb (a b : db) : bool :=
   N.eqb (stored a) (stored b) && listN_eqb (data a) (data b).
 
-Definition case_ok (c : list version * db * (option outcome * db * list N)) : bool :=
-  let '(vs, s, (o, s', inv)) := c in
-  let '(mo, ms, minv) := upgrade vs s in
+Fixpoint all2 {A B} (f : A -> B -> bool) (l : list A) (l' : list B) : bool :=
+  match l, l' with
+  | [], [] => true
+  | a :: l, b :: l' => f a b && all2 f l l'
+  | _, _ => false
+  end.
+
+Definition case := (list (mgr * db) * (option outcome * list (db * list N)))%type.
+
+Definition case_ok (c : case) : bool :=
+  let '(l, (o, obs)) := c in
+  let '(mo, mss, minvs) := open_upgrade harness_code (map fst l) (map snd l) in
   match o with
-  | Some o => outcome_eqb o mo && db_eqb s' ms && listN_eqb inv minv
+  | Some o =>
+    outcome_eqb o mo &&
+    all2 (fun ob md => db_eqb (fst ob) (fst md) && listN_eqb (snd ob) (snd md)) obs (combine mss minvs)
   | None => false
   end.
+
+(** result classes of a real case: 0 success, 1 refused as newer, 2 any other error *)
+Definition outcome_class (o : outcome) : N :=
+  match o with Ok => 0 | ErrReversion => 1 | _ => 2 end%N.
+
+Definition real_case :=
+  (bool * list (mgr * N) * (N * list (N * bool * list N)))%type.
+
+Definition real_ok (c : real_case) : bool :=
+  let '(through_repo_site, l, (cls, obs)) := c in
+  let ss := map (fun p => {| stored := snd p; data := [] |}) l in
+  let '(mo, mss, minvs) :=
+    open_upgrade (if through_repo_site then repo_code else harness_code) (map fst l) ss in
+  N.eqb cls (outcome_class mo) &&
+  all2 (fun ob md =>
+          let '(ver, unchanged, inv) := ob in
+          let '(s, s', minv) := md in
+          N.eqb ver (stored s') && Bool.eqb unchanged (db_eqb s s') && listN_eqb inv minv)
+       obs (combine (combine ss mss) minvs).
 
 Fixpoint mismatches_from {A} (f : A -> bool) (i : nat) (l : list A) : list nat :=
   match l with
@@ -29,3 +74,4 @@ Fixpoint mismatches_from {A} (f : A -> bool) (i : nat) (l : list A) : list nat :
   end.
 
 Definition mismatches := mismatches_from case_ok 0.
+Definition real_mismatches := mismatches_from real_ok 0.
